@@ -40,6 +40,34 @@ fn strategy(tier: Tier) -> BoxedStrategy<Case> {
             )
         })
         .prop_map(|(k4, f, g, a, points)| Case { k4, f, g, a, points })
+        .prop_flat_map(|c| (Just(c), 0u8..48, 20i8..=40))
+        .prop_map(|(mut c, regime, e)| {
+            // correlated scaling regimes (~4 % of the cases): every terminal map of f and every
+            // predicate row of g are tiny (or huge) powers of two at the same time, so that products
+            // reach 2^-80 .. 2^80 - exact in f64, but far outside any absolute tolerance
+            fn scale_rows(n: &mut TNode, e: i8) {
+                if let TNode::Dec { rows, kids } = n {
+                    for r in rows.iter_mut() {
+                        r.scale = e;
+                    }
+                    for k in kids.iter_mut().flatten() {
+                        scale_rows(k, e);
+                    }
+                }
+            }
+            match regime {
+                0 => {
+                    c.f.leaf_scale = -e;
+                    scale_rows(&mut c.g.root, -e.min(36));
+                }
+                1 => {
+                    c.f.leaf_scale = e.min(30);
+                    scale_rows(&mut c.g.root, e.min(30));
+                }
+                _ => {}
+            }
+            c
+        })
         .boxed()
 }
 
@@ -145,7 +173,7 @@ impl Property for C02 {
         ]
     }
     fn cases(&self, tier: Tier) -> usize {
-        tier.pick(4000, 40_000)
+        tier.pick(6000, 40_000)
     }
     fn strategy(&self, tier: Tier) -> BoxedStrategy<Case> {
         strategy(tier)
